@@ -17,7 +17,10 @@ use std::panic::{catch_unwind, AssertUnwindSafe};
 use std::path::{Path, PathBuf};
 use std::sync::Mutex;
 
-pub const VERIF_ROOT: &str = "/verif";
+/// Root of the verification tree (the directory of the `check` script): `VERIF_ROOT` env, default /verif.
+pub fn verif_root() -> PathBuf {
+    PathBuf::from(std::env::var("VERIF_ROOT").unwrap_or_else(|_| "/verif".to_string()))
+}
 
 // ---------------------------------------------------------------------------
 // Verdicts
@@ -117,7 +120,7 @@ pub struct KnownFindings {
 
 impl KnownFindings {
     pub fn load() -> Self {
-        let p = Path::new(VERIF_ROOT).join("known_findings.json");
+        let p = verif_root().join("known_findings.json");
         match std::fs::read_to_string(&p) {
             Ok(s) => serde_json::from_str(&s).unwrap_or_else(|e| {
                 eprintln!("known_findings.json unreadable: {e}");
@@ -346,7 +349,7 @@ impl LaneCtx {
     }
 
     pub fn out_dir(&self) -> PathBuf {
-        let p = Path::new(VERIF_ROOT).join("out").join(&self.prop);
+        let p = verif_root().join("out").join(&self.prop);
         let _ = std::fs::create_dir_all(&p);
         p
     }
@@ -563,7 +566,7 @@ impl LaneCtx {
     }
 
     pub fn write_replay(&self, sub: &str, case: &Value, sig: &str, detail: &str) -> String {
-        let dir = Path::new(VERIF_ROOT).join("out").join("violations");
+        let dir = verif_root().join("out").join("violations");
         let _ = std::fs::create_dir_all(&dir);
         let h = fingerprint(&(sub, case.to_string(), sig));
         let p = dir.join(format!("{}-{}-{:016x}.json", self.prop, sub, h));
@@ -737,7 +740,7 @@ pub fn write_evidence(
         "wall_s": wall_s,
         "violations": m.failures.len() + extra_violations,
     });
-    let dir = Path::new(VERIF_ROOT).join("evidence");
+    let dir = verif_root().join("evidence");
     let _ = std::fs::create_dir_all(&dir);
     let p = dir.join(format!("{prop}.json"));
     std::fs::write(&p, serde_json::to_vec_pretty(&ev).unwrap()).expect("write evidence");
